@@ -324,6 +324,16 @@ class C03(HistConc):
     prop = "C03"
     scen = "uniqpoll"
     per_cycle = 8
+
+    def jobs(self, tier, seed):
+        p = ("C03",)
+        j = HistConc.jobs(self, tier, seed)
+        big = tier != "quick"
+        # the in-place branch of make_mut/make_unique/OffsetArc::make_mut is a uniqueness grant too
+        j += conc_jobs("tsan", "cow", 200000 if big else 10000, seed, p, delay=1, nshards=8 if big else 2, first0=11 * 10 ** 6)
+        j += miri_conc_jobs("cow", 512 if big else 24, 6, seed, p, first0=12 * 10 ** 6, extra_flags=PREEMPT)
+        j += simple_jobs("dbg", ["faults", "seed=%d" % seed, "part=clone"], p)
+        return j
     assumptions = COMMON_ASSUME + [
         "schedule half: Miri's race detector / ThreadSanitizer decide whether every former sharer's access happens-before the granted write; "
         "legal load outcomes are sampled by Miri's weak-memory emulation, not enumerated",
@@ -582,6 +592,122 @@ class C12(ShapesPlan):
         return need(counts, ["shapes.union.first", "shapes.union.second"])
 
 
+
+def simple_jobs(mode, args, props, nshards=1, timeout=1200, sharded=True):
+    jobs = []
+    for k in range(nshards):
+        a = list(args)
+        if sharded and nshards > 1:
+            a += ["shard=%d" % k, "nshards=%d" % nshards]
+        if mode in ("asan", "memcheck", "tsan"):
+            a.append("shadow=0")
+        jobs.append(Job(mode, a, san_props=props, crash_props=props, timeout=timeout))
+    return jobs
+
+
+class C06(Plan):
+    assumptions = COMMON_ASSUME + ["8 (header, element) shape pairs; lengths 0..70, 255, 256, 1000; 5 size_hint regimes; 4 Vec capacity modes"]
+
+    def jobs(self, tier, seed):
+        p = ("C06",)
+        j = []
+        if tier == "quick":
+            j += simple_jobs("dbg", ["ctor", "seed=%d" % seed, "rot=3"], p, nshards=4)
+            j += simple_jobs("rel", ["ctor", "seed=%d" % (seed + 1), "rot=2"], p, nshards=2)
+            j += simple_jobs("nostd", ["ctor", "seed=%d" % (seed + 2), "rot=1"], p, nshards=2)
+            j += simple_jobs("asan", ["ctor", "seed=%d" % (seed + 3), "rot=1", "maxlen=256"], p, nshards=4)
+            j += [Job("miri", ["ctor", "seed=%d" % seed, "rot=1", "maxlen=9", "shard=%d" % k, "nshards=160"], san_props=p, crash_props=p,
+                      miri_seed=seed * 4096 + k, tb=(k % 4 == 3), timeout=1800) for k in range(12)]
+        else:
+            j += simple_jobs("dbg", ["ctor", "seed=%d" % seed, "full", "rot=5"], p, nshards=16)
+            j += simple_jobs("rel", ["ctor", "seed=%d" % (seed + 1), "full", "rot=5"], p, nshards=16)
+            j += simple_jobs("off", ["ctor", "seed=%d" % (seed + 4), "rot=5"], p, nshards=8)
+            j += simple_jobs("nostd", ["ctor", "seed=%d" % (seed + 2), "full", "rot=3"], p, nshards=8)
+            j += simple_jobs("asan", ["ctor", "seed=%d" % (seed + 3), "full", "rot=3"], p, nshards=16, timeout=3000)
+            j += simple_jobs("memcheck", ["ctor", "seed=%d" % (seed + 5), "rot=1", "maxlen=70"], p, nshards=16, timeout=3000)
+            j += [Job("miri", ["ctor", "seed=%d" % seed, "rot=2", "maxlen=33", "shard=%d" % k, "nshards=100"], san_props=p, crash_props=p,
+                      miri_seed=seed * 4096 + k, tb=(k % 4 == 3), timeout=3000) for k in range(100)]
+        return j
+
+    def coverage(self, counts, sets, samples, other, results):
+        return dict(
+            evaluations=counts.get("ctor.constructions", 0),
+            distinct_nontrivial=len(sets.get("ctor_cases", ())),
+            rule="one evaluation = one construction from identity-tracked inputs: result contents compared with the input identities in order and number, Clone counter must stay 0, "
+                 "tracked-value conservation right after construction, the source Vec/Box/String storage must be released during the call and exactly one new block remain "
+                 "(shadow allocator), and after releasing the result every input is destroyed exactly once; zero-sized element types may be refused up front with every input "
+                 "still destroyed exactly once. distinct_nontrivial = distinct (constructor, header shape, element shape, length class, size_hint regime, capacity mode) cases",
+            samples=samples,
+            per_constructor={k[5:]: v for k, v in counts.items() if k.startswith("ctor.") and k != "ctor.constructions"},
+            allocator_checked_frees=other.get("checked_frees", 0),
+        )
+
+    def required(self, counts, sets, other):
+        return need(counts, ["ctor.From<Vec<T>> for Arc<[T]>", "ctor.FromIterator for Arc<[T]>", "ctor.Arc::from_header_and_iter", "ctor.Arc::from_header_and_vec",
+                             "ctor.ThinArc::from_header_and_iter", "ctor.From<Box<T>>", "ctor.Default", "ctor.copy/str", "ctor.refused-zst"])
+
+
+def asan_faults(seed, p, extra):
+    """The iterator part leaves the documented half-built block behind: leak detection off there, on elsewhere."""
+    j = []
+    for part in ("clone", "closure", "cmp"):
+        j.append(Job("asan", ["faults", "seed=%d" % seed, "part=%s" % part, "shadow=0"] + extra, san_props=p, crash_props=p))
+    j.append(Job("asan", ["faults", "seed=%d" % seed, "part=iter", "shadow=0"] + extra, san_props=p, crash_props=p,
+                 env={"ASAN_OPTIONS": "detect_leaks=0:halt_on_error=1:exitcode=98"}))
+    return j
+
+
+class C07(Plan):
+    level = "fault_enumeration"
+    assumptions = COMMON_ASSUME + [
+        "fault points: every k-th invocation of each callback at fixed small sizes; allocation failure is injected by the shadow allocator in child processes (native modes only)",
+        "a half-built allocation (and the values already moved into it) left behind by a panicking from_header_and_iter-family constructor is tolerated, as documented",
+    ]
+
+    def jobs(self, tier, seed):
+        p = ("C07",)
+        j = []
+        if tier == "quick":
+            j += simple_jobs("dbg", ["faults", "seed=%d" % seed], p)
+            j += simple_jobs("rel", ["faults", "seed=%d" % seed], p)
+            j += simple_jobs("nostd", ["faults", "seed=%d" % seed, "part=iter"], p)
+            j += asan_faults(seed, p, [])
+            for part, n in (("iter", 5), ("clone", 4), ("closure", 3), ("cmp", 7)):
+                for only in range(n):
+                    j += [Job("miri", ["faults", "seed=%d" % seed, "part=%s" % part, "small", "only=%d" % only], san_props=p, crash_props=p, miri_seed=seed * 4096 + len(j),
+                              miri_extra="-Zmiri-ignore-leaks" if part == "iter" else "", tb=(only % 3 == 2), timeout=2400)]
+        else:
+            for m in ("dbg", "rel", "off", "nostd"):
+                j += simple_jobs(m, ["faults", "seed=%d" % seed, "big"], p)
+            j += asan_faults(seed, p, ["big"])
+            for part in ("clone", "closure", "cmp"):
+                j += simple_jobs("memcheck", ["faults", "seed=%d" % seed, "part=%s" % part], p, timeout=3000)
+            j += [Job("memcheck", ["faults", "seed=%d" % seed, "part=iter", "shadow=0"], san_props=p, crash_props=p, timeout=3000,
+                      valgrind_args=["--errors-for-leak-kinds=none"])]
+            for tb in (False, True):
+                for part, n in (("iter", 5), ("clone", 4), ("closure", 3), ("cmp", 7)):
+                    for only in range(n):
+                        j += [Job("miri", ["faults", "seed=%d" % seed, "part=%s" % part, "only=%d" % only], san_props=p, crash_props=p, miri_seed=seed * 4096 + len(j),
+                                  miri_extra="-Zmiri-ignore-leaks" if part == "iter" else "", tb=tb, timeout=3000)]
+        return j
+
+    def coverage(self, counts, sets, samples, other, results):
+        return dict(
+            evaluations=counts.get("faults.injected_runs", 0),
+            distinct_nontrivial=len(sets.get("fault_cases", ())),
+            rule="fault enumeration: for each API that runs user code (iterator next in 5 constructors; Clone inside make_mut/make_unique/unwrap_or_clone/OffsetArc::make_mut with 4 co-owner "
+                 "kinds; closures of with_arc x3 / with_raw_offset_arc / with_arc_mut in 5 behaviours; eq/ne/partial_cmp/cmp/hash/Debug through 7 handle kinds) a panic is injected at the "
+                 "k-th callback for every k until the call completes; lying iterators: all (reported, actual) with actual 0..6 and |diff|<=2 plus answers changing between calls; "
+                 "allocation failure at the n-th allocation of 12 constructors in child processes. distinct_nontrivial = distinct (site, size, k) fault cases",
+            samples=samples or [dict(note="see per_outcome")],
+            per_outcome={k: v for k, v in counts.items() if k.startswith("faults.")},
+        )
+
+    def required(self, counts, sets, other):
+        return need(counts, ["faults.iter.propagated", "faults.iter.completed", "faults.lie.propagated", "faults.clone.propagated", "faults.closure.runs",
+                             "faults.cmp.propagated", "faults.alloc.aborted-via-alloc-error"])
+
+
 PLANS = {}
 PLANS["C01"] = C01()
 PLANS["C04"] = C04()
@@ -593,3 +719,5 @@ PLANS["C10"] = C10()
 PLANS["C05"] = C05()
 PLANS["C11"] = C11()
 PLANS["C12"] = C12()
+PLANS["C06"] = C06()
+PLANS["C07"] = C07()
